@@ -1,5 +1,6 @@
 (* Extraction for C08: non-overlap / containment generator models and the checkers (independent of the proofs). *)
 Require Extraction.
 Require Import ExtrOcamlBasic.
-From Adapt Require Import Num.Qaux Cola.CompoundCsModel Cola.NonOverlapModel Cola.ContainmentModel.
-Extraction "c08_model.ml" run_ops gen_nonoverlap exempt_pairs gen_containment Sepb sep2b boxes_sepb.
+From Adapt Require Import Num.Qaux Cola.CompoundCsModel Cola.NonOverlapModel Cola.ContainmentModel Cola.VarLayoutModel.
+Extraction "c08_model.ml" run_ops gen_nonoverlap exempt_pairs gen_containment Sepb sep2b boxes_sepb
+  setup_layout setup_layout_flat stored_layout containments setup_user_system gen_system tag_at.
